@@ -381,13 +381,20 @@ class Resample(_NoReplay):
                 return
             idx = ss[0]["out"].fn((j,))
         tr, tr0 = r.traces, p.traces
-        yield "every_trace_field_taken_from_the_same_source_index", z3.Implies(
+        # range of the sampler's indices: a categorical draw is an index of the logits (A-TFP); searchsorted counts the
+        # entries below the pointer, 0..n INCLUSIVE - n happens when the cumulative weights fall short of the last
+        # pointer (floating point), and the gather then takes the last particle (JAX clamps), never a non-particle
+        idx_rng = z3.And(idx >= 0, idx < n) if case == "categorical" else z3.And(idx >= 0, idx <= n)
+        src = z3.If(idx >= n, n - 1, idx)
+        rng = z3.And(rng, idx_rng)
+        yield "every_trace_field_is_an_exact_copy_of_ONE_input_particle(the same source index for all fields)", z3.Implies(
             rng,
             z3.And(
-                tr.x.fn((j,)) == tr0.x.fn((idx,)),
-                tr.score.fn((j,)) == tr0.score.fn((idx,)),
-                tr.retval.fn((j,)) == tr0.retval.fn((idx,)),
-                tr.args.fn((j,)) == tr0.args.fn((idx,)),
+                src >= 0, src < n,
+                tr.x.fn((j,)) == tr0.x.fn((src,)),
+                tr.score.fn((j,)) == tr0.score.fn((src,)),
+                tr.retval.fn((j,)) == tr0.retval.fn((src,)),
+                tr.args.fn((j,)) == tr0.args.fn((src,)),
             ),
         )
         # hence lane j of the result is a coherent trace (it is lane idx of the coherent input)
